@@ -65,8 +65,13 @@ def leafs(v, rng):
     yield "trex", full("trex", v.u(1), v.u(3), [F(4, v.u(4)) for _ in range(5)])
     yield "smhd", full("smhd", v.u(1), v.u(3), [F(2, v.u(2)), F(2, 0)])
     yield "vmhd", full("vmhd", v.u(1), v.u(3), [F(2, v.u(2)), F(2, v.u(2)), F(2, v.u(2)), F(2, v.u(2))])
-    for name in (b"", b"\0", b"VideoHandler\0", b"abc", "Vidéo\0".encode(), b"a\0b\0", "\U0001F3AC clip \u00fc\0".encode()):
-        yield "hdlr_%d" % len(name), full("hdlr", v.u(1), v.u(3), [F(4, 0), Raw(v.bytes(4)), Raw(b"\0" * 12), Raw(name)])
+    names = [b"", b"\0", b"VideoHandler\0", b"abc", "Vidéo\0".encode(), b"a\0b\0", "\U0001F3AC clip \u00fc\0".encode()]
+    # names that look like counted (Pascal) strings: the first byte equals the number of bytes that follow it / the length of the field,
+    # with and without the terminating NUL (a decoder must not interpret it)
+    for n in (3, 32, 65, 86):
+        names += [bytes([n]) + b"x" * n, bytes([n]) + b"y" * (n - 1), bytes([n]) + b"z" * (n - 1) + b"\0", bytes([n + 1]) + b"w" * (n - 1) + b"\0"]
+    for i, name in enumerate(names):
+        yield "hdlr_%d_%d" % (i, len(name)), full("hdlr", v.u(1), v.u(3), [F(4, 0), Raw(v.bytes(4)), Raw(b"\0" * 12), Raw(name)])
     for bits in range(32):
         flags = 0
         items = [F(4, v.u(4))]
@@ -118,6 +123,9 @@ def leafs(v, rng):
     yield "url_self", full("url ", 0, 1)
     yield "url_loc", full("url ", 0, 0, [Raw(b"http://x/" + bytes([97 + v.u(1, 26)]) + b"\0")])
     yield "url_utf8", full("url ", 0, 0, [Raw("http://x/\u00e9t\u00e9\0".encode())])
+    for n in (4, 33):
+        yield "url_counted_%d" % n, full("url ", 0, 0, [Raw(bytes([n]) + b"u" * (n - 1) + b"\0")])
+        yield "emsg_counted_%d" % n, isogen.emsg(n % 2, v.u(4), v.u(4), v.u(4), v.u(4), bytes([n]) + b"s" * (n - 1), bytes([n - 1]) + b"v" * (n - 1), v.bytes(2))
     yield "dinf", isogen.dinf()
 
 
